@@ -237,12 +237,15 @@ func vfEnd2End(letters0, letters1 []uint8, L int, gammas bool) {
 	}
 	vfCheckMatrix(mat, raw, n)
 	// rows 0 and 2 are identical: no counted difference. They are comparable when some kept site
-	// carries a nucleotide (rm-gaps keeps a site when no row has a gap there).
+	// carries a nucleotide. Under rm-gaps a site is surely kept when every row holds one of
+	// A, C, G, T there (whether a gap-free site with an ambiguity code is kept is not fixed by the
+	// property: the implementation drops it, and NN / AA / NN then has no comparable site at all).
 	for j := 0; j < L; j++ {
 		kept := true
 		if rmgaps {
 			for r := 0; r < n; r++ {
-				kept = kept && orig[r][j] != '-'
+				c := orig[r][j]
+				kept = kept && (c == 'A' || c == 'C' || c == 'G' || c == 'T')
 			}
 		}
 		if kept && vfMaskOfLetter(orig[0][j]) != 0 {
